@@ -27,6 +27,8 @@ pub struct RawConn {
     /// the client end observed a disconnect
     pub peer_gone: bool,
     pub task_dropped: bool,
+    /// the raw client saw a `Shutdown` from the broker and has answered it (or closed)
+    pub shutdown_answered: bool,
 }
 
 pub struct World {
@@ -156,6 +158,7 @@ impl World {
                     received: Vec::new(),
                     peer_gone: false,
                     task_dropped: false,
+                    shutdown_answered: false,
                 });
                 ConnectOutcome::Connected(n)
             }
@@ -193,6 +196,28 @@ impl World {
         }
         c.received.extend(got.iter().cloned());
         got
+    }
+
+    /// Behaves like a client that was told to shut down: answers every `Shutdown` it has seen with
+    /// its own `Shutdown` (or, with `close`, by closing the transport). Returns how many answered.
+    pub fn answer_shutdowns(&mut self, close: bool) -> usize {
+        let mut n = 0;
+        for i in 0..self.conns.len() {
+            let c = &mut self.conns[i];
+            if !c.shutdown_answered
+                && c.t.is_some()
+                && c.received.iter().any(|m| matches!(m, Message::Shutdown(_)))
+            {
+                c.shutdown_answered = true;
+                n += 1;
+                if close {
+                    self.close_transport(i);
+                } else {
+                    self.send(i, aldrin_core::message::Shutdown.into());
+                }
+            }
+        }
+        n
     }
 
     pub fn drain_all(&mut self) {
